@@ -1,0 +1,135 @@
+// Licensed to the Apache Software Foundation (ASF) under one
+// or more contributor license agreements.  See the NOTICE file
+// distributed with this work for additional information
+// regarding copyright ownership.  The ASF licenses this file
+// to you under the Apache License, Version 2.0 (the
+// "License"); you may not use this file except in compliance
+// with the License.  You may obtain a copy of the License at
+//
+//   http://www.apache.org/licenses/LICENSE-2.0
+//
+// Unless required by applicable law or agreed to in writing,
+// software distributed under the License is distributed on an
+// "AS IS" BASIS, WITHOUT WARRANTIES OR CONDITIONS OF ANY
+// KIND, either express or implied.  See the License for the
+// specific language governing permissions and limitations
+// under the License.
+
+//! Read-only verification hooks (feature `verif-hooks`). They expose private
+//! functions and state to an external checking harness and change no behaviour.
+
+use std::hash::Hasher;
+
+use crate::hash::MurmurHash3X64128;
+use crate::hash::XxHash64;
+
+/// Feeds `chunks` to the crate's MurmurHash3 x64 128 hasher as successive `write` calls.
+pub fn murmur_write_finish(seed: u64, chunks: &[&[u8]]) -> (u64, u64) {
+    let mut h = MurmurHash3X64128::with_seed(seed);
+    for c in chunks {
+        h.write(c);
+    }
+    h.finish128()
+}
+
+/// Like [`murmur_write_finish`] but returns the hasher state
+/// `(h1, h2, total, buffer masked to its fill level, buffer fill level)`.
+pub fn murmur_state(seed: u64, chunks: &[&[u8]]) -> (u64, u64, u64, [u8; 16], usize) {
+    let mut h = MurmurHash3X64128::with_seed(seed);
+    for c in chunks {
+        h.write(c);
+    }
+    h.verif_state()
+}
+
+/// Feeds `chunks` to the crate's XXH64 hasher as successive `write` calls.
+pub fn xxh64_write_finish(seed: u64, chunks: &[&[u8]]) -> u64 {
+    let mut h = XxHash64::with_seed(seed);
+    for c in chunks {
+        h.write(c);
+    }
+    h.finish64()
+}
+
+/// Like [`xxh64_write_finish`] but returns the hasher state
+/// `(total_len, [v1, v2, v3, v4], buffer masked to its fill level, buffer fill level)`.
+pub fn xxh64_state(seed: u64, chunks: &[&[u8]]) -> (u64, [u64; 4], [u8; 32], usize) {
+    let mut h = XxHash64::with_seed(seed);
+    for c in chunks {
+        h.write(c);
+    }
+    h.verif_state()
+}
+
+/// The crate's 16-bit seed hash.
+pub fn seed_hash(seed: u64) -> u16 {
+    crate::hash::compute_seed_hash(seed)
+}
+
+/// State dump of an HLL sketch.
+#[derive(Debug, Clone, PartialEq)]
+pub struct VerifHllState {
+    /// 0 = list, 1 = set, 2 = register array.
+    pub mode: u8,
+    /// Configured lg_k.
+    pub lg_k: u8,
+    /// Target type: 4, 6 or 8.
+    pub tgt: u8,
+    /// Coupon-mode container: lg of the table size.
+    pub lg_arr: usize,
+    /// Coupon-mode container: the raw table, empty slots included, in storage order.
+    pub table: Vec<u32>,
+    /// Coupon-mode container: the stored count.
+    pub len: usize,
+    /// Array mode: true register values read through `get`.
+    pub registers: Vec<u8>,
+    /// Array mode (Hll4 only): raw nibbles.
+    pub raw4: Vec<u8>,
+    /// Array mode: cur_min (0 for Hll6/Hll8).
+    pub cur_min: u8,
+    /// Array mode: num_at_cur_min (num_zeros for Hll6/Hll8).
+    pub num_at_cur_min: u32,
+    /// Array mode (Hll4 only): aux map entries `(slot, value)`; `None` when no map is allocated.
+    pub aux: Option<Vec<(u32, u8)>>,
+    /// Array mode: HIP accumulator.
+    pub hip_accum: f64,
+    /// Array mode: kxq0.
+    pub kxq0: f64,
+    /// Array mode: kxq1.
+    pub kxq1: f64,
+    /// Array mode: out-of-order flag.
+    pub ooo: bool,
+}
+
+/// State dump of a CPC sketch.
+#[derive(Debug, Clone, PartialEq)]
+pub struct VerifCpcState {
+    /// lg_k.
+    pub lg_k: u8,
+    /// Number of coupons.
+    pub num_coupons: u32,
+    /// Window offset.
+    pub window_offset: u8,
+    /// First interesting column.
+    pub first_interesting_column: u8,
+    /// Whether a sliding window is allocated.
+    pub has_window: bool,
+    /// The sliding window bytes.
+    pub window: Vec<u8>,
+    /// Whether a surprising-value table is allocated.
+    pub has_table: bool,
+    /// Number of entries of the surprising-value table.
+    pub table_entries: u32,
+    /// The non-empty slots of the surprising-value table, in storage order.
+    pub table_items: Vec<u32>,
+    /// lg size of the surprising-value table.
+    pub table_lg_size: u8,
+    /// Merge flag.
+    pub merge_flag: bool,
+    /// kxp register.
+    pub kxp: f64,
+    /// HIP accumulator.
+    pub hip_est_accum: f64,
+    /// Internal flavor ordinal 0..=4 (Empty, Sparse, Hybrid, Pinned, Sliding).
+    pub flavor: u8,
+}
